@@ -80,12 +80,19 @@ KINDS = {
     "nested": ("exists(add(#a, 1))", "a"),
     "righthand": ("yes() -> add(#a, 1)", "a"),
     "assign": ("@v = add(#a, 1)", "a"),
+    # a Python exception on the value path under an equality: it travels up to the Expression's own trap
+    "assignpy": ("@v = round(#a)", "a"),
+    "whenpy": ("yes() -> @v = mod(#n, #d)", "d"),
     # the erroring function guards a fail(): an error is not a match of the left side, so the right side must not run and the
     # verdict is the policy's doing alone
     "guardfail": ("above.nocontrib(add(#a, 1), 100) -> fail()", "a"),
     "guardfail2": ("equals.nocontrib(mod(#n, #d), 100) -> fail_and_stop()", "d"),
 }
 GUARD_KINDS = ["guardfail", "guardfail2"]
+# kinds in which the erroring function is the component itself (or the value of its assignment / the do-part of its when):
+# with validation-mode: match the component then counts as matching; a function *around* the erroring one decides for itself
+# (a Python exception in a bare function component is trapped by that function, which then simply does not match: left out)
+MATCH_KINDS = ["args", "args2", "righthand", "assign", "assignpy", "whenpy"]
 
 
 def case_run(case):
@@ -149,13 +156,27 @@ def case_run(case):
     # lines returned: erroring lines do not match unless validation-mode says match
     if not got_raise:
         lines = out["lines"] or []
-        returned = [int(l[1] and 0) or recs.index(l) for l in lines]
+        # the returned lines are in file order: place each on the first record after its predecessor that has its cells
+        # (offending records are equal to each other)
+        returned, at = [], 0
+        for l in lines:
+            while at < len(recs) and recs[at] != l:
+                at += 1
+            returned.append(at)
+            at += 1
         clean = [i for i in want_calls if i not in bad]
         if [i for i in returned if i not in bad] != clean:
             res["oracle"].append({"what": "a clean line did not match", "got": returned, "want_clean": clean})
         if ov["match"] is not True and any(i in bad for i in returned):
             res["oracle"].append({"what": "an erroring line matched although validation-mode does not say match",
                                   "got": returned, "bad": bad})
+        # ... and with validation-mode: match an erroring component counts as matching, so the line is returned (the other
+        # component of the line always matches; a run that stops on the error is C13's stop clause and is left out); the lines the run reached are `want_calls`
+        if ov["match"] is True and not st and case["kind"] in MATCH_KINDS:
+            missing = [i for i in bad if i in want_calls and i not in returned]
+            if missing:
+                res["oracle"].append({"what": "an erroring line did not match although validation-mode says match",
+                                      "got": returned, "bad": bad, "missing": missing})
     # model tie on this run: handling of the errors of the first erroring line
     if bad and co:
         k = sum(1 for e in out["errors"] if e[0] == first)
